@@ -20,7 +20,7 @@ from typing import Any, Callable, Iterable
 
 from .calls import Resolver
 from .classes import ClassTable
-from .loader import AnalysisError, FuncInfo, Project, dotted, norm
+from .loader import EXECUTED, AnalysisError, FuncInfo, Project, dotted, norm
 
 FOREIGN = 'builtins.Exception'  # bound of "some non-TatSu exception"
 BASE = 'builtins.BaseException'
@@ -286,6 +286,7 @@ class Executor:
     def run(self, fn: FuncInfo, state: Any, hole: Callable[[Any], set[Out]] | None = None, depth: int = 0) -> set[Out]:
         """Outcomes of the body of FN from STATE.  `next` outcomes are converted to `return`."""
         self.functions_run.add(fn.qualname)
+        EXECUTED.add(fn.qualname)
         if depth == 0:
             self.root = fn
             self._shared_inlined = set()
